@@ -481,7 +481,7 @@ def normalise(tu):
     from . import inline
     known = inline.keep_names()
     new = [f for f in tu.fns.values() if f.is_lib and f.has_body and f.qe not in known and
-           f.kind in ("function", "method") and "(anonymous class)" not in f.q and "(lambda" not in f.q]
+           f.kind in ("function", "method") and "(anonymous class)" not in f.qe and "(lambda" not in f.qe and not f.rec.get("lambda")]
     tu.new_helpers = sorted(set(f.qe for f in new))
     if not new:
         return
